@@ -16,6 +16,7 @@ mod eng_diag;
 mod eng_dp;
 mod eng_dp2;
 mod eng_gsd;
+mod eng_hold;
 mod eng_las;
 mod eng_prm;
 mod eng_recover;
@@ -151,6 +152,7 @@ fn main() {
         "C07" => eng_dp2::c07(&mut ctx),
         "C08" => eng_dp::c08(&mut ctx),
         "C17" => eng_dp2::c17(&mut ctx),
+        "C13" => eng_hold::c13(&mut ctx),
         "C14" => eng_dp::c14(&mut ctx),
         "C09" => eng_codec::c09(&mut ctx),
         "C10" => eng_codec::c10(&mut ctx),
